@@ -20,6 +20,8 @@ pub use substitution::*;
 pub mod var_name_map;
 pub use var_name_map::VarNameMap;
 #[cfg(oxidd_verif)]
+pub mod verif_alloc;
+#[cfg(oxidd_verif)]
 pub mod verif_locks;
 
 pub use nanorand::WyRand as Rng;
